@@ -10,7 +10,7 @@ ID = "C20"
 LEVEL = "fault_enumeration"
 RULE = (
     "A well-formed generated spec + one structural fault (thorough: also pairs) from the catalogue F1 "
-    "duplicate channel, F2 duplicate sample, F3 duplicated (name,type) modifier with different data, F4 "
+    "duplicate channel, F2 duplicate sample (each with changed yields or as an identical copy), F3 duplicated (name,type) modifier with different data, F4 "
     "sample length, F5 modifier data length (F5c: a compensating long/short pair across channels), F6 bin-wise modifier shared across different widths / "
     "staterror across channels on different samples / shapesys reuse, F7 one name with conflicting "
     "constraint types, F8 override of the wrong length, F9 undefined or multi-component POI, F10 lumi "
